@@ -48,9 +48,9 @@ fn main() {
         "c10frame" => pure::c10_frame(&mut rng, n, &work, &mut out),
         "c18" => pure::c18(&mut rng, n, &mut out),
         "c17" => range::c17(&mut rng, n, &work, &mut out),
-        "c01" | "c02" | "c13" | "c07" | "c12" | "c18chunks" => {
+        "c01" | "c02" | "c13" | "c07" | "c12" | "c18chunks" | "c06seq" => {
             let mut s = sess::Sess::new(&work);
-            let (w, p): (&seq::Weights, &'static str) = match slice.as_str() { "c01" => (&seq::W_C01, "C01"), "c07" => (&seq::W_C01, "C07"), "c12" => (&seq::W_C01, "C12"), "c18chunks" => (&seq::W_C01, "C18"), "c02" => (&seq::W_C02, "C02"), _ => (&seq::W_C13, "C13") };
+            let (w, p): (&seq::Weights, &'static str) = match slice.as_str() { "c01" => (&seq::W_C01, "C01"), "c07" => (&seq::W_C01, "C07"), "c12" => (&seq::W_C01, "C12"), "c18chunks" => (&seq::W_C01, "C18"), "c06seq" => (&seq::W_C01, "C06"), "c02" => (&seq::W_C02, "C02"), _ => (&seq::W_C13, "C13") };
             seq::histories(&mut s, &mut rng, n, w, p);
             s.finish();
             out = std::mem::take(&mut s.out);
